@@ -1,3 +1,91 @@
-From TV Require Import Base.
-Theorem C14_placeholder : True. Proof. exact I. Qed.
-Print Assumptions C14_placeholder.
+(* C14 -- the context never has two live instances of a machine and never leaks one.
+   Property theorems only; proofs are in ProofC14.v.
+   `truth tb n s`: the managers' view of what is alive equals what the trace says (live_nf), every live class
+   is in the teardown order, and the trace is well formed (wf_tr): an Init only when no instance of that class
+   is live, a Teardown / a hand-over (Yield) only of the instance that is live at that moment. *)
+From TV Require Import Base Context ProofC14.
+
+(* (1) the invariant holds initially and is preserved by EVERY well-formed request program, for every fault
+       pattern (cfl s is arbitrary), every flag combination, keep_alive or not, reconfigure blocks,
+       teardown_if_alive, raising / skipping bodies; the configuration is restored *)
+Theorem C14_invariant_initially :
+  forall tb n (deps_ok : forall c dc de, dep_of tb c = Some (dc, de) -> dc < c) k r fl,
+  truth n (cstate0 n k r fl).
+Proof. intros tb n _ k r fl. exact (truth0 n k r fl). Qed.
+Print Assumptions C14_invariant_initially.
+
+Theorem C14_invariant_preserved :
+  forall tb n, (forall c dc de, dep_of tb c = Some (dc, de) -> dc < c) ->
+  forall d p s r s',
+  wfp n p -> crun tb d p s = (r, s') -> truth n s -> pres n s s'.
+Proof. exact crun_inv. Qed.
+Print Assumptions C14_invariant_preserved.
+
+(* (2) what the invariant says about the trace: at most one live instance per class at every moment, an
+       instance is torn down only while it is the live one (hence at most once), and an instance handed to
+       a requester is the live, initialised one at that moment *)
+Theorem C14_trace_well_formed :
+  forall tb n, (forall c dc de, dep_of tb c = Some (dc, de) -> dc < c) ->
+  forall d p k r fl res s',
+  wfp n p -> crun tb d p (cstate0 n k r fl) = (res, s') ->
+  wf_tr (ctr s') /\ (forall c, c < n -> live_nf (ctr s') c = m_inst (getm s' c)).
+Proof.
+  intros tb n Hd d p k r fl res s' Hw H.
+  destruct (crun_inv tb n Hd d p _ _ _ Hw H (truth0 n k r fl)) as ((_ & B & _ & _ & E & _) & _).
+  exact (conj E B).
+Qed.
+Print Assumptions C14_trace_well_formed.
+
+(* (3) a successful request hands over the instance the manager holds, and its class is in the teardown order *)
+Theorem C14_handed_over_is_live :
+  forall tb n, (forall c dc de, dep_of tb c = Some (dc, de) -> dc < c) ->
+  forall d top c reset excl roe s r s',
+  enter tb d top c reset excl roe s = (r, s') -> truth n s -> c < n ->
+  truth n s' /\ grows c s s' /\
+  match r with
+  | inr en => e_cls en = c /\ m_inst (getm s' c) = Some (e_inst en) /\ In c (order s')
+  | inl _ => True
+  end.
+Proof. exact enter_inv. Qed.
+Print Assumptions C14_handed_over_is_live.
+
+(* (4) a teardown never brings anything (back) to life, always clears the manager -- also when the machine's
+       own teardown raises -- and touches only the class and its prerequisites *)
+Theorem C14_teardown_clears_and_never_revives :
+  forall n d c s r s',
+  teardown d c s = (r, s') -> truth n s -> c < n ->
+  truth n s' /\ shrinks s s' /\ upper_same c s s' /\ (0 < d -> alive s' c = false).
+Proof. exact teardown_inv. Qed.
+Print Assumptions C14_teardown_clears_and_never_revives.
+
+(* (5) under keep_alive nothing is alive once the outermost `with ctx:` has been left -- normally or by an
+       exception, including one raised by some machine's own teardown *)
+Theorem C14_nothing_alive_after_keepalive_context :
+  forall tb n, (forall c dc de, dep_of tb c = Some (dc, de) -> dc < c) ->
+  forall d body s r s',
+  0 < d -> wfp n body -> truth n s -> opn s = 0 -> ka s = true ->
+  crun tb d (CWithCtx body) s = (r, s') ->
+  forall c, c < n -> alive s' c = false.
+Proof. exact nothing_alive_after_keepalive_context. Qed.
+Print Assumptions C14_nothing_alive_after_keepalive_context.
+
+(* the dependency table of the correspondence check satisfies the hypothesis of all of the above *)
+Theorem C14_table_of_the_check_is_a_chain :
+  forall c dc de, dep_of tb5 c = Some (dc, de) -> dc < c.
+Proof. exact tb5_deps_ok. Qed.
+Print Assumptions C14_table_of_the_check_is_a_chain.
+
+(* (6) NOT proved (decided by the correspondence + oracle only, see DESIGN.md): leak-freedom without
+       keep_alive (needs the user-count argument) and "dependants first" at the final exit.  The latter is in
+       fact FALSE when a machine's own init/teardown raises while reset_on_error is in effect -- recorded
+       finding D14; witness: *)
+Theorem C14_dependants_first_refuted :
+  ctx_model (tb5, (true, true),
+             CWithCtx (CRequest 1 false false None (CRequest 4 false false None CSkip)),
+             [false; false; false; true]) =
+  VL [VL [VL [VN 1; VN 0; VN 0]; VL [VN 1; VN 1; VN 1]; VL [VN 3; VN 1; VN 1]; VL [VN 1; VN 4; VN 2]; VL [VN 3; VN 4; VN 2];
+          VL [VN 5; VN 4]; VL [VN 5; VN 1]; VL [VN 6];
+          VL [VN 2; VN 4; VN 2]; VL [VN 2; VN 0; VN 0]; VL [VN 2; VN 1; VN 1]];
+      VL [VL [VN 3; VN 3]]; VL [VN 0; VN 0; VN 0; VN 0; VN 0]]%Z.
+Proof. exact d14_witness. Qed.
+Print Assumptions C14_dependants_first_refuted.
